@@ -15,7 +15,12 @@ use std::{
 
 use log::{debug, trace};
 use memmap2::MmapMut;
+#[cfg(not(feature = "verif"))]
 use parking_lot::{Condvar, Mutex, RwLock, RwLockReadGuard, RwLockWriteGuard};
+#[cfg(feature = "verif")]
+use parking_lot::{Condvar, Mutex};
+#[cfg(feature = "verif")]
+use crate::verif_sync::{RwLock, RwLockReadGuard, RwLockWriteGuard};
 
 mod disk_usage;
 pub mod error;
@@ -30,6 +35,8 @@ mod region_state;
 mod regions;
 #[cfg(feature = "verif")]
 pub mod verif;
+#[cfg(feature = "verif")]
+pub mod verif_sync;
 
 pub use disk_usage::*;
 pub use error::*;
